@@ -32,7 +32,7 @@ func drawCall(r *rng.R, id uint64) rpcCall {
 // C04: every RPC call gets its own handler run, result and status.
 func C04(c *runner.Cfg) *report.Result {
 	res := report.New("C04", "")
-	res.Rule = "G concurrent callers issue seeded calls (unary via Request and via Channel+Response, oneway, server-/client-streaming, bidirectional, early response, late response; handler outcomes OK with bytes/string/message/nil results, application-defined codes with unicode messages, every standard code, deliberate panics) over 1..4 shared connections with a channel target of 2 (forces connection growth); a fifth of the requests carry 1..3 subservice calls in front of the method call which the handler must find unchanged; each request carries (call id, behaviour, stream length, size, crc) and the handler is a deterministic function of it, so the expected (result bytes, code, message, stream) is computed independently; oracles: result/status equality per call id, stream messages in order before the end, handler invocation count == 1 per issued call (oneway: after quiescence), a oneway call observed through Channel+Response is non-OK, C04/long-streams: four concurrent streaming calls of 20 000+ small messages each, without and with compression; C04/oneway-stall: oneway calls under a 250 ms timeout context while the client->server direction of a proxy is paused and the write queue is 16..256 KiB (nothing cut): after the proxy resumes every call that returned OK ran its handler exactly once and every non-OK call at most once (a failed send must not be reported as OK), malformed replies (garbage, truncated, wrong type, empty status) from a raw mpx server surface as non-OK; non-trivial = call with a non-empty result, a stream or a non-OK expectation; distinct = distinct call ids"
+	res.Rule = "G concurrent callers issue seeded calls (unary via Request and via Channel+Response, oneway, server-/client-streaming, bidirectional, early response, late response; handler outcomes OK with bytes/string/message/nil results, application-defined codes with unicode messages, every standard code, deliberate panics) over 1..4 shared connections with a channel target of 2 (forces connection growth); a fifth of the requests carry 1..3 subservice calls in front of the method call which the handler must find unchanged; each request carries (call id, behaviour, stream length, size, crc) and the handler is a deterministic function of it, so the expected (result bytes, code, message, stream) is computed independently; oracles: result/status equality per call id, stream messages in order before the end, handler invocation count == 1 per issued call (oneway: after quiescence), a oneway call observed through Channel+Response is non-OK, C04/long-streams: four concurrent streaming calls of 20 000+ small messages each, without compression through a proxy that re-segments the byte stream into pieces of 1..1500 bytes, and with compression; C04/oneway-stall: oneway calls under a 250 ms timeout context while the client->server direction of a proxy is paused and the write queue is 16..256 KiB (nothing cut): after the proxy resumes every call that returned OK ran its handler exactly once and every non-OK call at most once (a failed send must not be reported as OK), malformed replies (garbage, truncated, wrong type, empty status) from a raw mpx server surface as non-OK; non-trivial = call with a non-empty result, a stream or a non-OK expectation; distinct = distinct call ids"
 	logger := netx.NewRecLogger()
 	hooks := netx.Install(c.Seed)
 	if c.Variant != "race" {
@@ -331,7 +331,20 @@ func longStreams(c *runner.Cfg, res *report.Result, logger *netx.RecLogger, srvS
 			res.Inconcl("long streams: rpc server not listening")
 			continue
 		}
-		cl := rpc.NewClient(server.Address(), rpc.ClientMode_OnDemand, logger, opts)
+		// the uncompressed run goes through a proxy that re-segments the byte stream (pieces of 1..1500
+		// bytes): frame headers and bodies arrive split across reads
+		target := server.Address()
+		if !compress {
+			px, err := netx.NewProxy(target)
+			if err != nil {
+				res.Inconcl("long streams: proxy: %v", err)
+				continue
+			}
+			px.Fragment.Store(1500)
+			defer func() { res.Count("long_stream_pieces_forwarded_by_the_fragmenting_proxy", px.Pieces.Load()); px.Close() }()
+			target = px.Addr()
+		}
+		cl := rpc.NewClient(target, rpc.ClientMode_OnDemand, logger, opts)
 		var wg sync.WaitGroup
 		for bi, b := range []int{bClientStream, bServerStream, bBidi, bClientStream} {
 			wg.Add(1)
